@@ -2933,7 +2933,9 @@ func marshalDefault(in []any) (x Stack, c Condition, err error) {
 		// the Operator and the last is the
 		// expression (value).  Convert this
 		// to a proper instance of Condition.
-		c, _ = extractConditionValues(in)
+		if c, _ = extractConditionValues(in); !c.IsInit() {
+			err = errorf("Malformed condition")
+		}
 		return
 	case `LIST`, `AND`, `OR`, `NOT`, `BASIC`:
 		x = stackByWord(lab).Push(in[1:]...)
